@@ -6,7 +6,12 @@ Tie B streams
                   executor sentences of the statement.  + ExecutorServer's derivation of `redelivered`.
   dedup           REAL engine on a two-task workflow, random delivery sequences vs Mistral.Dedup.step;
                   start_workflow requests carrying ids vs Dedup.startWorkflow; the Lean counter-witness
-                  of dup_start_task_rerun_full_fails replayed on the engine.
+                  of dup_start_task_rerun_full_fails replayed on the engine.  Mode `resume` (45 % of the
+                  sequences): pause + resume while t1 is IDLE with its first_run=True request in flight
+                  (re-queues start_task(first_run=False, rerun=False)); the original request, the re-queued
+                  one(s) and copies of both in random orders, also after the task failed / was cancelled /
+                  succeeded, mixed with explicit reruns; monitor = a repeated start request (and the second
+                  of the two requests to start the IDLE task) changes no row and sends nothing.
   engine-dup      generated programs: duplicate-free run vs the same run with repeated deliveries /
                   heartbeat expiry / redelivered run_action requests; monitor = every repeated delivery is
                   a no-op on the committed rows and sends nothing; final rows equal.
@@ -25,19 +30,37 @@ MANIFEST = {
             'and changes nothing; every action execution takes at most one result, whichever of heartbeat-expiry '
             'and genuine result comes second is rejected; a repeated first_run start request is a no-op; at most '
             'one action is dispatched and the downstream dispatch runs at most once per task; a repeated '
-            'start_workflow with an id returns the existing execution. FALSE for first_run=False start requests '
-            '(rerun/resume): dup_start_task_rerun_full_fails, replayed on the real engine (known finding).',
+            'start_workflow with an id returns the existing execution. Requests to run an EXISTING task '
+            '(first_run=False; Dedup.runExisting models _run_existing after repo fixes 258aaaae and 17f326b9, checks in the '
+            'order of the code): the invariant "IDLE, or RUNNING with a live action execution, or completed" holds in every '
+            'reachable state (start_inv_init/step/reachable), so a duplicated request that is NOT an explicit rerun '
+            '(rerun=False, re-queued by Workflow.resume) is a no-op at ANY later point, after ANY deliveries, from ANY task '
+            'state (dup_run_existing_noop); the original first_run=True request and the re-queued one can arrive in either '
+            'order with the same result (started_start_requests_noop, first_run_and_resume_any_order); at most one action is '
+            'dispatched per task over all sequences without explicit reruns, resume requests included (once_inv_*). FALSE '
+            'only for EXPLICIT rerun requests (rerun=True, rerun_workflow) whose duplicate arrives after the restarted task '
+            'completed again: dup_start_task_rerun_full_fails (rerun=true witness, replayed on the real engine, known '
+            'finding); dup_start_task_rerun_partial gives the exact set of states (dupSafe) in both directions.',
     'note': 'One delivery = one transaction (tx_lock granularity); races inside a transaction between processes, '
             'oslo.messaging delivery and SQL semantics are trusted. Policies (retry/wait/pause-before) and '
-            'with-items are outside the Dedup model; `redelivered` is taken from the SENDER-serialised context '
+            'with-items are outside the Dedup model (so are the states WAITING/DELAYED/PAUSED of a task: the invariant '
+            'StartInv speaks about tasks without policies; with a retry/wait policy continue_task sets RUNNING and runs the '
+            'task in one transaction); the rerun flag of the model is the `rerun` kwarg of the recorded start_task message '
+            '(Workflow.resume: rerun=False, reset=True - checked by the stream; rerun_workflow: rerun=True); `redelivered` is '
+            'taken from the SENDER-serialised context '
             '(the transport redelivery flag is not consulted by the oslo driver path) - recorded, not a theorem.',
 }
 RULE = ('executor: the complete cross-product redelivered x safe_rerun x 7 action behaviours x sync x id x client '
         'outcome(1st call) x client outcome(2nd call); non-trivial = unsafe redelivery or >=1 client call. '
         'dedup: random event sequences (3-12 events: first-run start, results ok/error/cancel of any existing action, '
         'checker pass, rerun request + its start message, duplicated sub-workflow results) generated against the '
-        'real state; non-trivial = a rejected/refused delivery or a repeated start request; distinct = distinct '
-        'event list. engine-dup: wfgen.gen_program (2-7 tasks, joins all only, optional sub-workflow), oracle with '
+        'real state; 45 % of them in mode resume: pause_workflow + resume_workflow once or twice while t1 is IDLE '
+        '(each resume re-queues start_task(first_run=False, rerun=False, reset=True)), then the same event mix plus '
+        'copies of every recorded first_run=False message (weight 5 of 17) and later pause/resume toggles; the flags '
+        'first_run/rerun/reset handed to the model are the kwargs of the recorded message; witnesses P, P2 (rerun=True) '
+        'and R1-R4 (resume request duplicated after the task failed / after the original request ran and the task failed / '
+        'the other order / after the task was cancelled) every run; non-trivial = a rejected/refused delivery, a repeated start request or any '
+        'first_run=False request; distinct = distinct (mode, event list). engine-dup: wfgen.gen_program (2-7 tasks, joins all only, optional sub-workflow), oracle with '
         'errors, modes dup/hb/rerun/redeliver, each rpc message repeated with p=0.35 once or twice at a random later '
         'point; non-trivial = >=1 repeated delivery or an expiry that hit a running action; distinct = distinct '
         '(yaml, oracle, policy, seeds, mode)')
@@ -60,7 +83,7 @@ def correspond(ctx):
     exec_stream.run(ctx)
     k = 14
     par.run_parallel(ctx, 'harness.dup_stream', 'run_chunk',
-                     [{'n_cases': ctx.n(14, 200), 'n_dedup': ctx.n(10, 150)}] * k)
+                     [{'n_cases': ctx.n(14, 200), 'n_dedup': ctx.n(12, 170)}] * k)
     ctx.cov['exhaustive'] = True
     ctx.cov['exhaustive_note'] = ('stream executor enumerates the whole decision-table cross-product (1008 cases) '
                                   'in both tiers; streams dedup/engine-dup are sampled')
@@ -110,5 +133,9 @@ def replay(ctx, rep):
                                                                 dup_stream.replay_witness(ctx, r['witness'])))
         elif 'ids' in r:
             dup_stream.run_start_ids_fixed(ctx, r['ids'])
+        elif 'case' in r:
+            c = r['case']
+            dup_stream.run_dedup_case(ctx, ctx.driver(), c['seed'], c['mode'], c['n_ev'], c['ev_seed'])
+            print('replay dedup case %s: violations=%d' % (c, len(ctx.violations)))
     else:
         print('replay: unknown stream %r' % stream)
